@@ -28,6 +28,10 @@ THOROUGH_POOL = [('p1', 'p1', 2), ('p2', 'p2', 2), ('p3', 'p3', 2), ('q1', 'q1',
 # beyond 64 bits, and a system object that is falsy (defines __len__ -> 0)
 ODD_POOL = [('u3', 'u3', ['uint8', 3]), ('u0', 'u0', ['uint8', 0]), ('m', 'm', ['int8', -128]), ('big', 'big', 2 ** 70),
             ('f', 'f', 0, 'falsy'), ('n64', 'n64', ['int64', -3])]
+# systems whose class defines its own ordering (by id, descending - e.g. for display), and systems whose window opens
+# later than they are registered (start 1 / 2): neither has any bearing on the execution order among those that run
+LT_POOL = [('z1', 'z1', 0, 'lt'), ('y1', 'y1', 0, 'lt'), ('x2', 'x2', 1, 'lt'), ('w2', 'w2', 1, 'lt'), ('p', 'p', 0)]
+LATE_POOL = [('b', 'b', 0), ('L2', 'L2', 0, 'start2'), ('a', 'a', 0), ('c', 'c', 1), ('M1', 'M1', 1, 'start1')]
 
 
 def decode_prio(p):
@@ -53,8 +57,8 @@ def make_recorder(log):
     # the log is harness state, not model state: it is reached through the closure, never through a field, so
     # the canonical form of the model does not contain it
     class Rec(Core.System):
-        def __init__(self, key, id, model, priority):
-            super().__init__(id, model, priority=priority)
+        def __init__(self, key, id, model, priority, start=0):
+            super().__init__(id, model, priority=priority, start=start)
             self.key = key
 
         def execute(self):
@@ -63,6 +67,15 @@ def make_recorder(log):
     class FalsyRec(Rec):
         def __len__(self):        # e.g. "number of buffered items": the object is falsy while that is 0
             return 0
+
+    class LtRec(Rec):
+        def __lt__(self, other):      # a user-defined ordering of system objects (reverse alphabetical by id)
+            return self.id > other.id
+
+        def __gt__(self, other):
+            return self.id < other.id
+
+    Rec.Lt = LtRec
 
     class RecCollector(Collector):
         def __init__(self, key, id, model):
@@ -110,11 +123,17 @@ class Harness:
                 o = RecC(key, sid, w.model)
             elif len(entry) > 3 and entry[3] == 'falsy':
                 o = Falsy(key, sid, w.model, decode_prio(prio))
+            elif len(entry) > 3 and entry[3] == 'lt':
+                o = Rec.Lt(key, sid, w.model, decode_prio(prio))
+            elif len(entry) > 3 and entry[3].startswith('start'):
+                o = Rec(key, sid, w.model, decode_prio(prio), start=int(entry[3][5:]))
             else:
                 o = Rec(key, sid, w.model, decode_prio(prio))
             w.objs[key] = o
             w.prio[key] = int(o.priority)   # the collector's default is read off the real object: "default -1" is
             #                            asserted separately below
+        w.start = {e[0]: (int(e[3][5:]) if len(e) > 3 and e[3].startswith('start') else 0) for e in self.pool}
+        w.t = 0
         w.ref = []          # list of (priority, seq, key)
         w.seq = 0
         w.last = ()
@@ -187,7 +206,9 @@ class Harness:
                 raise Violation('a second model with systems of the same ids was disturbed', expected=['c', 'a', 'b', 'k'],
                                 observed=list(w.log2))
             got = tuple(w.log)
-            exp = tuple(k for _, _, k in sorted(w.ref, key=lambda r: (-r[0], r[1])))
+            order = [k for _, _, k in sorted(w.ref, key=lambda r: (-r[0], r[1]))]
+            exp = tuple(k for k in order if w.start[k] <= w.t)       # those whose window is open in this timestep
+            w.t += 1
             w.last = got
             if got != exp:
                 raise Violation('execution order differs from (descending priority, registration order)',
@@ -197,6 +218,7 @@ class Harness:
             clone = copy.deepcopy(w.model)
             del w.log[:]
             clone.execute()
+            exp = tuple(k for k in order if w.start[k] <= w.t)       # the copy runs the NEXT timestep
             if tuple(w.log) != exp:
                 raise Violation('a deep copy of the model runs its systems in another order than (descending priority, '
                                 'registration order of the model it was copied from)', expected=list(exp),
@@ -225,7 +247,8 @@ class Harness:
 
     def refstate(self, w):
         # registration order and scheduling order; sequence numbers only matter relative to each other
-        return (tuple(k for _, _, k in w.ref), tuple(k for _, _, k in sorted(w.ref, key=lambda r: (-r[0], r[1]))))
+        return (tuple(k for _, _, k in w.ref), tuple(k for _, _, k in sorted(w.ref, key=lambda r: (-r[0], r[1]))),
+                min(w.t, max(w.start.values())))
 
     def outcome(self, w):
         return w.last
@@ -451,6 +474,14 @@ def run(ctx):
         ctx.cap('odd_pool: fixpoint not reached')
     if ctx.violations:
         return
+    for name, pool in (('own_ordering', LT_POOL), ('late_start', LATE_POOL)):
+        hp = Harness(pool)
+        r = hbfs.explore(ctx, hp, name, max_depth=40, procs=ctx.procs)
+        ctx.leg(name, **r)
+        if not r.get('fixpoint'):
+            ctx.cap(f'{name}: fixpoint not reached')
+        if ctx.violations:
+            return
     small = [('b', 'b', 0), ('a', 'a', 0), ('c', 'c', 1), ('k', 'k', None), ('k2', 'k', 0), ('a2', 'a', 1)]
     ha = Harness(small, aliases=True)
     r = hbfs.explore(ctx, ha, 'deprecated_entry_points', max_depth=40, procs=ctx.procs)
